@@ -10,7 +10,7 @@ from concurrent.futures import ThreadPoolExecutor
 import verif as V
 
 XADD_TIERS = {
-    "quick": dict(runs=20000, chunk=250, secs=240, recheck=200, miri_seeds=16),
+    "quick": dict(runs=30000, chunk=250, secs=240, recheck=200, miri_seeds=16),
     "thorough": dict(runs=3000000, chunk=2000, secs=600, recheck=5000, miri_seeds=512),
 }
 
